@@ -179,3 +179,36 @@ pub fn reset_is_plain_stores_and_clone_is_loads() {
     assert!(t0.k == K::Store && t0.arg == 0 && t1.k == K::Store && t1.arg == 0, "C08: reset is a plain store(0) per word (documented as non-harvesting)");
 }
 }
+// the path every guest write takes: VolatileSlice -> RefSlice (BaseSlice<&AtomicBitmap>) -> AtomicBitmap.
+// The wrapper must add NO step of its own (a dirty_at pre-check is a load: check-then-skip races with a
+// concurrent harvest and loses the mark) and drop none.
+stubbed! {
+pub fn mark_through_slice_wrapper_is_one_rmw_per_page() {
+    let b = mk(2);
+    let base: usize = kani::any();
+    let off: usize = kani::any();
+    let len: usize = kani::any();
+    kani::assume(len <= 3);
+    let sl = crate::bitmap::RefSlice::new(&b, base);
+    let sl2 = sl.slice_at(off);
+    let n0 = unsafe { NS };
+    assert!(n0 == 0, "C08: deriving a bitmap slice must not touch the bitmap");
+    sl2.mark_dirty(0, len);
+    let ns = unsafe { NS };
+    let start = base.wrapping_add(off);
+    let mut expect = 0;
+    let mut i = 0;
+    while i < 3 {
+        if i < len && start < usize::MAX - i && start + i < b.size {
+            assert!(expect < ns, "C08,C05: a page written through a bitmap slice got no atomic mark");
+            let s = unsafe { STEPS[expect] };
+            let p = start + i;
+            assert!(s.k == K::FetchOr && s.addr == word_addr(&b, p >> 6) && s.arg == 1u64 << (p & 63) && s.seqcst,
+                "C08,C05: marking through a bitmap slice must be fetch_or(1 << bit, SeqCst) on the page's word and nothing else (no check-then-act)");
+            expect += 1;
+        }
+        i += 1;
+    }
+    assert!(ns == expect, "C08,C16: marking through a bitmap slice issued atomic steps beyond one RMW per page in range");
+}
+}
